@@ -656,6 +656,11 @@ class Engine:
 
     def identical(self, a, b):
         """Python `a is b`."""
+        h = self.builtins.get('__identical__')
+        if h is not None:
+            r = h(self, a, b)
+            if r is not None:
+                return r
         if isinstance(a, VNone) or isinstance(b, VNone):
             o = b if isinstance(a, VNone) else a
             if isinstance(o, VNone):
@@ -1468,8 +1473,7 @@ class Engine:
         self._loop(st, fr, 'asyncfor')
 
     def _loop(self, st, fr, kind):
-        n = fr.loop_counter.get('n', 0)
-        fr.loop_counter['n'] = n + 1
+        n = self._loop_ordinal(fr, st)
         if st.orelse:
             raise Unsupported('loop else', st)
         if kind in ('for', 'asyncfor'):
@@ -1491,6 +1495,31 @@ class Engine:
         if hook is None:
             raise Unsupported('loop #%d of %s has no invariant' % (n, fr.qualname), st)
         hook(self, st, fr, kind, src)
+
+    def _loop_ordinal(self, fr, st):
+        """Static ordinal of a loop within its function: source order, nested functions excluded."""
+        fn = fr.func
+        if fn is None or isinstance(fn, ast.Lambda):
+            return 0
+        cache = self.__dict__.setdefault('_loop_ord_cache', {})
+        lst = cache.get(id(fn))
+        if lst is None:
+            lst = []
+
+            def walk(nodes):
+                for n_ in nodes:
+                    if isinstance(n_, (ast.FunctionDef, ast.AsyncFunctionDef, ast.Lambda, ast.ClassDef)):
+                        continue
+                    if isinstance(n_, (ast.While, ast.For, ast.AsyncFor)):
+                        lst.append(n_)
+                    walk(list(ast.iter_child_nodes(n_)))
+            walk(fn.body)
+            lst.sort(key=lambda n_: (n_.lineno, n_.col_offset))
+            cache[id(fn)] = lst
+        for i, n_ in enumerate(lst):
+            if n_ is st:
+                return i
+        return len(lst)
 
     # helper used by loop hooks -------------------------------------------------
     def cut_loop(self, st, fr, inv, havoc, test=None, bind=None, label='', on_exit=None, step=None):
